@@ -20,6 +20,8 @@ type tierCfg struct {
 	splitRadius  int // cuts around the block boundary for 2-write splits
 	oneByteLimit int // all-1-byte delivery for streams up to this length in the split enumeration
 	wsSinglesAll int // websocket streams up to this length: every single cut position
+	wsPairRadius  int // websocket: pairs of cuts within this distance of a message frame boundary
+	wsSplitRadius int // websocket: cuts around the frame boundary for 2-write splits
 }
 
 type rtJob struct {
@@ -55,11 +57,12 @@ func seqHash(seq []*elem) uint64 {
 }
 
 // execCase runs one delivery and returns the verdict.
-func execCase(w *wire, exp []*expected, cuts []int, one bool, st *b64stat) *failure {
-	s, err := w.open(cuts, one)
+func execCase(w *wire, exp []*expected, cuts []int, one bool, fast bool, st *b64stat) *failure {
+	s, err := w.open(cuts, one, fast)
 	if err != nil {
 		return &failure{kind: "harness", msg: "carrier could not be opened: " + err.Error(), field: "open"}
 	}
+	defer s.release()
 	return readBack(s, exp, st)
 }
 
@@ -104,7 +107,7 @@ func (rt *rtCtx) runCaseT(c caseT) (*failure, *wire, error) {
 	if err != nil {
 		return nil, nil, err
 	}
-	return execCase(w, expectAll(seq), c.Cuts, c.OneByte, nil), w, nil
+	return execCase(w, expectAll(seq), c.Cuts, c.OneByte, c.Fast, nil), w, nil
 }
 
 func carrierShort(c string) string {
@@ -230,6 +233,13 @@ func (rt *rtCtx) doJob(j rtJob) {
 		run.Violation(carrierShort(j.carrier)+"/open-failed", caseT{Phase: "roundtrip", Carrier: j.carrier, Seq: names(j.seq), WriteEnds: j.writeEnds, Msg: err.Error()})
 		return
 	}
+	if es, err := serialise(j.seq); err == nil {
+		t := 0
+		for _, b := range es {
+			t += len(b)
+			w.elemEnds = append(w.elemEnds, t)
+		}
+	}
 	base := mixHash(seqHash(j.seq), evid.Hash(j.carrier))
 	for _, e := range j.writeEnds {
 		base = mixHash(base, uint64(e)+77)
@@ -240,8 +250,11 @@ func (rt *rtCtx) doJob(j rtJob) {
 		return caseT{Phase: "roundtrip", Carrier: j.carrier, Seq: names(j.seq), WriteEnds: j.writeEnds, Msg: "job did not finish"}
 	})
 	defer g.End()
+	isHTTP := j.carrier == carHTTP
 	one := func(cuts []int, oneByte bool) {
-		f := execCase(w, exp, cuts, oneByte, &st)
+		// HTTP tunnel: deliveries with >= 2 cuts none of which is the POST|data boundary skip the re-parsing of the POST request
+		fast := isHTTP && len(cuts) >= 2 && cuts[0] != 0
+		f := execCase(w, exp, cuts, oneByte, fast, &st)
 		nEval++
 		if nEval&1023 == 0 {
 			g.Touch()
@@ -257,7 +270,7 @@ func (rt *rtCtx) doJob(j rtJob) {
 			run.NontrivialHash(h)
 		}
 		if f != nil {
-			c := caseT{Phase: "roundtrip", Carrier: j.carrier, Seq: names(j.seq), WriteEnds: j.writeEnds, Cuts: append([]int(nil), cuts...), OneByte: oneByte}
+			c := caseT{Phase: "roundtrip", Carrier: j.carrier, Seq: names(j.seq), WriteEnds: j.writeEnds, Cuts: append([]int(nil), cuts...), OneByte: oneByte, Fast: fast}
 			rt.report(c, w, f)
 			run.Outcome("rt-fail:" + j.carrier + ":" + f.kind + ":" + f.field)
 		} else if rt.samples.Load() < 9 && (len(cuts) == 2 && cuts[0]%7 == 3) {
@@ -270,125 +283,146 @@ func (rt *rtCtx) doJob(j rtJob) {
 	cfg := rt.cfg
 	n := len(w.data)
 	buf := make([]int, 0, 4)
+	mine := func(i int) bool { return i%j.parts == j.part }
 	enum := func(cand []int, k int) {
 		for i := range cand {
-			if i%j.parts != j.part {
-				continue
+			if mine(i) {
+				subsetsFrom(cand, i, k, buf, func(cuts []int) { one(cuts, false) })
 			}
-			subsetsFrom(cand, i, k, buf, func(cuts []int) { one(cuts, false) })
 		}
 	}
-	if j.mode == 1 {
-		// write-split job: deliveries local to the block boundary
-		if j.part == 0 {
-			one(nil, false)
-			if n <= cfg.oneByteLimit {
-				one(nil, true)
+	singles := func(cand []int) {
+		for i, p := range cand {
+			if mine(i) {
+				one([]int{p}, false)
 			}
+		}
+	}
+	pairsOnly := func(cand []int) {
+		for i := range cand {
+			if !mine(i) {
+				continue
+			}
+			for l := i + 1; l < len(cand); l++ {
+				one([]int{cand[i], cand[l]}, false)
+			}
+		}
+	}
+	triplesOnly := func(cand []int) {
+		for i := range cand {
+			if !mine(i) {
+				continue
+			}
+			for l := i + 1; l < len(cand); l++ {
+				for m := l + 1; m < len(cand); m++ {
+					one([]int{cand[i], cand[l], cand[m]}, false)
+				}
+			}
+		}
+	}
+	isWS := j.carrier == carWSc2s || j.carrier == carWSs2c
+
+	if j.mode == 1 {
+		// write-grouping job: deliveries local to the block boundaries
+		one(nil, false)
+		if n <= cfg.oneByteLimit {
+			one(nil, true)
+		}
+		r := cfg.splitRadius
+		if isWS {
+			r = cfg.wsSplitRadius
 		}
 		var cand []int
 		for _, b := range w.blocks[:len(w.blocks)-1] {
-			cand = around(cand, b, cfg.splitRadius)
+			cand = around(cand, b, r)
+		}
+		if len(w.blocks) == 1 { // all elements in one write: the element boundaries inside the single block
+			cand = w.innerBoundaries(r)
 		}
 		cand = uniqSorted(cand, w.lo, n-1)
 		enum(cand, 2)
-	} else {
-		if j.part == 0 {
-			one(nil, false)
-			one(nil, true)
-		}
-		switch {
-		case j.carrier == carDirectServer:
-			// only the first 4 bytes are treated specially by the sniffing reader
-			if n <= cfg.singlesAll {
-				for p := w.lo; p < n; p++ {
-					if p%j.parts == j.part {
-						one([]int{p}, false)
-					}
-				}
-			}
-			var cand []int
-			cand = around(cand, 4, 4)
+		run.Eval(nEval)
+		rt.count(j.carrier, nEval)
+		rt.merge(&st)
+		return
+	}
+
+	if j.part == 0 {
+		one(nil, false)
+		one(nil, true)
+	}
+	switch {
+	case j.carrier == carDirectServer:
+		// only the first 4 bytes are treated specially by the sniffing reader
+		if n <= 1000 {
+			singles(allPositions(w.lo, n))
+		} else {
+			c := allPositions(1, 64)
 			for _, b := range w.blocks {
-				cand = around(cand, b, 2)
+				c = around(c, b, cfg.radius)
 			}
-			enum(uniqSorted(cand, w.lo, n-1), cfg.kFull)
-		case j.carrier == carWSc2s || j.carrier == carWSs2c:
-			// every case needs a fresh upgraded connection: singles everywhere on short streams, pairs
-			// (thorough: triples) around the message frame boundaries (frame header 2-4 bytes + 4 mask bytes)
-			cand := w.candidates(10, false)
-			if n <= cfg.wsSinglesAll {
-				for p := w.lo; p < n; p++ {
-					one([]int{p}, false)
-				}
-			} else {
-				for _, p := range cand {
-					one([]int{p}, false)
-				}
-			}
-			if len(cand) > 80 {
-				cand = w.candidates(5, false)
-			}
-			for i := range cand {
-				for l := i + 1; l < len(cand); l++ {
-					one([]int{cand[i], cand[l]}, false)
-				}
-			}
-			if cfg.kFull > 2 {
-				c3 := w.candidates(4, false)
-				for i := range c3 {
-					for l := i + 1; l < len(c3); l++ {
-						for m := l + 1; m < len(c3); m++ {
-							one([]int{c3[i], c3[l], c3[m]}, false)
-						}
-					}
-				}
-			}
-		case n <= cfg.fullLen:
-			enum(allPositions(w.lo, n), cfg.kFull)
-		case n <= cfg.fullLen2:
-			enum(allPositions(w.lo, n), 2)
-			if cfg.kFull > 2 {
-				enum3(enum, w, cfg)
-			}
-		default:
-			cand := w.candidates(cfg.radius, true)
-			if n <= cfg.singlesAll {
-				for p := w.lo; p < n; p++ {
-					if p%j.parts == j.part {
-						one([]int{p}, false)
-					}
-				}
-			} else {
-				for i, p := range cand {
-					if i%j.parts == j.part {
-						one([]int{p}, false)
-					}
-				}
-			}
-			if len(cand) > cfg.maxCand {
-				cand = w.candidates(cfg.radius, false)
+			singles(uniqSorted(c, w.lo, n-1))
+		}
+		var cand []int
+		cand = around(cand, 4, 4)
+		for _, b := range w.blocks {
+			cand = around(cand, b, 2)
+		}
+		cand = uniqSorted(cand, w.lo, n-1)
+		pairsOnly(cand)
+		if cfg.kFull > 2 {
+			triplesOnly(cand)
+		}
+	case isWS:
+		// every case needs a freshly upgraded connection: single cuts everywhere on short streams, pairs
+		// (thorough: triples) around the message frame boundaries (frame header 2-4 bytes + 4 mask bytes)
+		if n <= cfg.wsSinglesAll && (len(j.seq) == 1 || cfg.kFull > 2) {
+			singles(allPositions(w.lo, n))
+		} else {
+			singles(w.candidates(10, false))
+		}
+		cand := w.candidates(cfg.wsPairRadius, false)
+		if len(cand) > 60 {
+			cand = w.candidates(4, false)
+		}
+		pairsOnly(cand)
+		if cfg.kFull > 2 {
+			triplesOnly(w.candidates(4, false))
+		}
+	case n <= cfg.fullLen:
+		enum(allPositions(w.lo, n), cfg.kFull)
+	case n <= cfg.fullLen2:
+		enum(allPositions(w.lo, n), 2)
+		if cfg.kFull > 2 {
+			triplesOnly(threeCand(w))
+		}
+	default:
+		cand := w.candidates(cfg.radius, true)
+		if n <= cfg.singlesAll {
+			singles(allPositions(w.lo, n))
+		} else {
+			singles(cand)
+		}
+		if len(cand) > cfg.maxCand {
+			cand = w.candidates(cfg.radius, false)
+			if j.part == 0 {
 				run.AddInt("streams_with_pairs_limited_to_write_boundaries", 1)
 			}
-			if len(cand) > cfg.maxCand {
-				cand = w.candidates(2, false)
-			}
-			// pairs (singles are repeated for candidates; harmless)
-			for i := range cand {
-				if i%j.parts != j.part {
-					continue
-				}
-				for l := i + 1; l < len(cand); l++ {
-					one([]int{cand[i], cand[l]}, false)
-				}
-			}
-			if cfg.kFull > 2 {
-				enum3(enum, w, cfg)
-			}
+		}
+		if len(cand) > cfg.maxCand {
+			cand = w.candidates(2, false)
+		}
+		pairsOnly(cand)
+		if cfg.kFull > 2 {
+			triplesOnly(threeCand(w))
 		}
 	}
 	run.Eval(nEval)
 	rt.count(j.carrier, nEval)
+	rt.merge(&st)
+}
+
+func (rt *rtCtx) merge(st *b64stat) {
 	rt.stMu.Lock()
 	if st.maxBuf > rt.st.maxBuf {
 		rt.st.maxBuf = st.maxBuf
@@ -399,11 +433,11 @@ func (rt *rtCtx) doJob(j rtJob) {
 	rt.stMu.Unlock()
 }
 
-// enum3: three cuts, all within a small radius of the write boundaries (streams too long for the full k=3 space).
-func enum3(enum func([]int, int), w *wire, cfg tierCfg) {
+// threeCand: positions for three cuts on streams too long for the full k=3 space: close to the write boundaries.
+func threeCand(w *wire) []int {
 	cand := w.candidates(3, false)
-	if len(cand) > 120 {
+	if len(cand) > 60 {
 		cand = w.candidates(1, false)
 	}
-	enum(cand, 3)
+	return cand
 }
